@@ -91,6 +91,12 @@ func (ioc *IO) Register(slot *internal.Slot) {
 }
 
 func (ioc *IO) Deregister(slot *internal.Slot) {
+	if slot.Events != 0 {
+		// The other direction is still registered with the poller, which holds a raw pointer to the slot: the owning
+		// object must stay reachable until that operation completes, is cancelled or the object is closed.
+		return
+	}
+
 	if slot.Fd >= len(ioc.pending.static) {
 		delete(ioc.pending.dynamic, slot.Fd)
 	} else {
